@@ -518,7 +518,20 @@ def r08_14(ctx: Ctx, rule: str = "R08.14") -> None:
     ff = cls.methods.get("from_folders")
     if ff is not None:
         ok = any(isinstance(x, ast.Attribute) and x.attr == "crc" for x in walk(ff.node))
-        ctx.check(ok, rule, ff, ff.node, "from_folders hands folder CRCs down", "from_folders does not take the folder CRCs", construct="from_folders crc")
+        # the flag of substream k is true whenever folder k has a CRC (`digestdefined and crc is not None`), and the digest is that CRC under the same test
+        for n in [n for n in walk(ff.node) if isinstance(n, ast.Assign) and isinstance(n.targets[0], ast.Attribute) and n.targets[0].attr in ("digestsdefined", "digests")
+                  and isinstance(n.value, (ast.ListComp, ast.GeneratorExp))]:
+            v = n.value.generators[0].target.id if isinstance(n.value.generators[0].target, ast.Name) else "folder"
+            atoms = {f"{v}.digestdefined", f"{v}.crc is not None"}
+            elt = n.value.elt
+            if n.targets[0].attr == "digestsdefined":
+                ok = ok and shared.implied_by_all(elt, atoms) and not any(isinstance(x, ast.UnaryOp) and isinstance(x.op, ast.Not) for x in ast.walk(elt)) \
+                    and not n.value.generators[0].ifs
+            else:
+                ok = ok and isinstance(elt, ast.IfExp) and norm(elt.body) == f"{v}.crc" and shared.implied_by_all(elt.test, atoms) and not n.value.generators[0].ifs
+        ctx.check(ok, rule, ff, ff.node, "from_folders hands folder CRCs down", "from_folders does not give substream k the CRC of folder k exactly when that folder has one "
+                  "(`digestdefined and crc is not None`): an archive without SubStreamsInfo loses its only digests - members extract unverified and the first append writes them without CRC",
+                  construct="from_folders crc")
 
 
 def r08_17(ctx: Ctx, rule: str = "R08.17") -> None:
